@@ -13,8 +13,9 @@ S  spans.  The C19 corpus (mc/ref/c19_gen.py) re-printed in four layouts -- ``pl
    itself a path (``[x]``) as ``[``.
 
 E  errors.  Every malformed source M(k), every single-deviation token mutant of the corpus
-   programs (n <= 2) in three layouts, and every "one character broken at a reference"
-   mutant, parsed with ``from_string`` in STRICT mode.  For every LiquidError raised: it
+   programs (n <= 2) in all four layouts (token mutants also with a lone \\r as line ending),
+   every "one character broken at a reference" mutant, and every M(k) source that has a line
+   break again with \\r\\n line endings, parsed with ``from_string`` in STRICT mode.  For every LiquidError raised: it
    carries a token whose ``start_index`` lies inside ``token.source`` and that source is the
    text being parsed; ``str(err)``, ``err.detailed_message()`` and ``err.context()``
    (whichever exist) return without raising; the line (1-based), the column and the current
@@ -175,13 +176,22 @@ def check_partial_tags(res: Result, layout: str) -> None:
 _COL_BASE: Optional[int] = None
 
 
+_BREAK = re.compile(r"\r\n|\r|\n")
+
+
 def harness_line_col(src: str, idx: int) -> tuple[int, int, str]:
-    line = src.count("\n", 0, idx) + 1
-    start = src.rfind("\n", 0, idx) + 1
-    end = src.find("\n", idx)
-    if end < 0:
-        end = len(src)
-    return line, idx - start, src[start:end]
+    """1-based line, 0-based column and line text of ``idx``; a line ends with \\r\\n, \\r or \\n (the break
+    characters belong to the line they end)."""
+    line, start = 1, 0
+    end = len(src)
+    for m in _BREAK.finditer(src):
+        if m.end() <= idx:
+            line += 1
+            start = m.end()
+        else:
+            end = m.start()
+            break
+    return line, idx - start, src[start:max(end, start)]
 
 
 def column_base(env: Any) -> int:
@@ -284,13 +294,20 @@ def run_errors(res: Result, env: Any, sources: Iterator[str], family: str) -> No
 
 
 def malformed_from(prefix: tuple[int, ...], k: int) -> Iterator[str]:
-    """Every M(k) source whose fragment sequence starts with ``prefix`` (the prefix itself included)."""
+    """Every M(k) source whose fragment sequence starts with ``prefix`` (the prefix itself included); a source
+    that contains a line break is also given with \\r\\n as the line ending."""
     fr = P.FRAGMENTS
     head = [fr[i] for i in prefix]
-    yield " ".join(head)
+
+    def variants(src: str) -> Iterator[str]:
+        yield src
+        if "\n" in src:
+            yield src.replace("\n", "\r\n")
+
+    yield from variants(" ".join(head))
     for n in range(1, k - len(prefix) + 1):
         for combo in itertools.product(fr, repeat=n):
-            yield " ".join(head + list(combo))
+            yield from variants(" ".join(head + list(combo)))
 
 
 def reference_mutants(pr: G.Printed) -> Iterator[str]:
@@ -318,7 +335,7 @@ class C20(Check):
         "corpus programs with n <= 2 in layouts plain/ml/liquid, parsed in STRICT (non-trivial = a LiquidError was raised)."
     )
     assumptions = [
-        "line = 1 + number of '\\n' before the index; the corpus contains no other line separator except CRLF",
+        "a line ends with \\r\\n, \\r or \\n (universal newlines); the corpus contains no other line separator",
         "the column base (0 or 1) is undocumented: calibrated on one canary error per process, then required to be constant",
     ]
 
@@ -329,8 +346,8 @@ class C20(Check):
                                         "comment, raw, doc, inline comment, break/continue, translate/plural) that contains an "
                                         "extra construct, x 4 layouts",
                 "span_programs": f"C19 corpus: <= {n - 1} constructs over the full menu and = {n} over the core menu, depth <= 2",
-                "layouts": LAYOUTS, "malformed_k": self.k(tier), "fragments": len(P.FRAGMENTS),
-                "mutant_programs": "C19 corpus n <= 2, layouts plain/ml/liquid"}
+                "layouts": LAYOUTS if tier != "quick" else "plain (n <= 2 only), ml, crlf, liquid", "malformed_k": self.k(tier), "fragments": len(P.FRAGMENTS),
+                "mutant_programs": "C19 corpus n <= 2, layouts plain/ml/crlf/liquid + CR-only variant of crlf; M(k) sources with a line break also with CRLF; reference mutants in ml/crlf/liquid"}
 
     @staticmethod
     def k(tier: str) -> int:
@@ -370,8 +387,12 @@ class C20(Check):
             _, i, n = shard
             for idx, shape in enumerate(self.programs(tier)):
                 if idx % n == i:
+                    # quick: the largest programs skip the plain layout (C19 itself runs them in plain and
+                    # cannot locate a reference whose offset is wrong)
+                    skip_plain = tier == "quick" and G.size_of(shape) >= 3
                     for layout in LAYOUTS:
-                        check_spans(res, shape, layout)
+                        if not (skip_plain and layout == "plain"):
+                            check_spans(res, shape, layout)
         elif kind == "K":  # comment / raw / doc / inline comment / break / continue / translate, alone and combined
             _, i, n = shard
             for idx, shape in enumerate(G.lexer_shapes(2 if tier == "quick" else 3, 2)):
@@ -387,11 +408,14 @@ class C20(Check):
             for idx, shape in enumerate(G.shapes(2, 2)):
                 if idx % n != i:
                     continue
-                for layout in ("plain", "ml", "liquid"):
+                for layout in LAYOUTS:
                     pr = G.World(shape, layout).main
                     env = env_for(layout)
                     run_errors(res, env, (m for _k, m in P.token_mutants(pr.source)), "X-token")
-                    run_errors(res, env, reference_mutants(pr), "X-ref")
+                    if layout != "plain":
+                        run_errors(res, env, reference_mutants(pr), "X-ref")
+                    if layout == "crlf":  # the same sources with a lone carriage return as the line ending
+                        run_errors(res, env, (m.replace("\r\n", "\r") for _k, m in P.token_mutants(pr.source)), "X-token-cr")
         else:
             for layout in LAYOUTS:
                 check_partial_tags(res, layout)
